@@ -63,9 +63,12 @@ def enumerate_cases(tier: str):
             yield {"version": version, "parked": 4, "other_parked": 0, "senders": [[0, True], [1, True], [2, True]]}
             yield {"version": version, "parked": 3, "other_parked": 1, "senders": [[0, True], [0, True], [3, True]]}
             yield {"version": version, "parked": 2, "other_parked": 0, "senders": [[0, True], [0, True, "dup"]]}
+            yield {"version": version, "parked": 2, "other_parked": 0, "senders": [[1, True], [1, True, "req"]]}
+            yield {"version": version, "parked": 1, "other_parked": 0, "senders": [[0, True, "req"]]}
             yield {"version": version, "parked": 1, "other_parked": 0, "senders": [[0, True], [0, True, "dup"], [0, True]]}
             for senders in ([[0, True]], [[1, True]], [[1, True], [0, True]], [[3, True], [1, False]]):
                 yield {"version": version, "parked": 2, "other_parked": 0, "senders": senders, "represented": True}
+                yield {"version": version, "parked": 2, "other_parked": 0, "senders": senders, "reported": True}
     else:
         spaces = [(v, k, ns, other) for v in ("2.1", "2.2") for k in (1, 2, 3, 4) for ns in (1, 2, 3) for other in (0, 1)]
         spaces = [s for s in spaces if not (s[0] == "2.2" and s[2] == 3 and s[1] > 2)]
@@ -79,7 +82,7 @@ def enumerate_cases(tier: str):
 
 
 def strategy(tier: str):
-    sender = st.tuples(st.sampled_from((0, 1, 2, 3, "other")), st.booleans(), st.sampled_from(("new", "new", "dup"))).map(list)
+    sender = st.tuples(st.sampled_from((0, 1, 2, 3, "other")), st.booleans(), st.sampled_from(("new", "new", "dup", "req"))).map(list)
     return st.fixed_dictionaries(
         {
             "version": st.sampled_from(("2.0", "2.1", "2.2")),
@@ -87,6 +90,7 @@ def strategy(tier: str):
             "other_parked": st.integers(0, 1),
             "senders": st.lists(sender, min_size=1, max_size=3),
             "represented": st.booleans(),
+            "reported": st.booleans(),
         }
     )
 
@@ -145,11 +149,20 @@ async def _run_schedule(case: dict, schedule: list[int]) -> tuple[Outcome | None
     wake_type = 32 if version == "2.2" else 22
     transport = GatedTransport()
     gateway, _ = env.make_gateway(version, transport=transport)
-    env.install_registry(gateway.nodes, REGISTRY)
+    registry = REGISTRY
+    if case.get("reported"):
+        # both children of node 1 have already reported "s0" for both value types: a send of "s0" looks redundant
+        registry = {k: dict(v, children={c: dict(cv, values={"0": "s0", "2": "s0"}) for c, cv in v["children"].items()}) for k, v in REGISTRY.items()}
+    env.install_registry(gateway.nodes, registry)
     sends: list[dict] = []  # {key, value, inv, comp}
     listen_tick: list = [None]
 
+    req_lines: list[str] = []
+
     async def do_send(key, value, buffer) -> tuple[str, object]:
+        if value is None:
+            req_lines.append(f"{key[0]};{key[1]};2;0;{key[2]};\n")
+            return await env.send(gateway, env.mk_message([key[0], key[1], 2, 0, key[2], ""]), buffer)
         rec = {"key": key, "value": value, "inv": transport.tick(), "comp": None, "buffered": bool(buffer), "racing": listen_tick[0] is not None}
         sends.append(rec)
         calls_before = len(transport.calls)
@@ -181,6 +194,8 @@ async def _run_schedule(case: dict, schedule: list[int]) -> tuple[Outcome | None
         value = f"s{idx}"
         if len(sender) > 2 and sender[2] == "dup" and kref != "other" and kref < k:
             value = f"p{kref}"  # the same value as the parked (possibly in-flight) command, in a new Message object
+        if len(sender) > 2 and sender[2] == "req":
+            value = None  # this task asks the node for the value instead of setting it (command 2, same key)
         specs.append((key, value, buf))
     listener = None
     faults_left = [int(case.get("faults", 0))]
@@ -268,6 +283,10 @@ async def _run_schedule(case: dict, schedule: list[int]) -> tuple[Outcome | None
         if value not in sent_values:
             return fail("wrote-unsent-value", f"schedule {trace}: wrote {line!r}, values sent for that key: {sent_values}"), factors, info
         written.setdefault(key, []).append(value)
+    for line in req_lines:
+        count = sum(1 for _t, l in transport.calls if l == line)
+        if count != 1:
+            return fail("req-command-not-written-once", f"schedule {trace}: value request {line!r} was handed to the transport {count} times"), factors, info
     for key, recs in by_key.items():
         got = written.get(key, [])
         where = f"schedule {trace}: key {key}: sent {[(r['value'], r['inv'], r['comp'], 'buffered' if r['buffered'] else 'direct') for r in recs]}, written {got}"
